@@ -5,7 +5,7 @@
 From Coq Require Import Ascii String.
 From Coq Require Import List ZArith NArith Bool.
 From Coq.Strings Require Import Byte.
-From OgRek Require Import Base Value Decoder Encoder.
+From OgRek Require Import Base GoStrconv Value Decoder Encoder.
 Import ListNotations.
 Open Scope N_scope.
 
@@ -65,6 +65,14 @@ Section Norm.
 
   Definition len32 (s : bytes) : bool := Nlen s <? 4294967296.
 
+  (* protocol-0 float: the text fmt's %g produced (oracle e_fmtg) must read back as the same bits *)
+  Definition fmtg_ok (f : N) : bool :=
+    match parse_float (e_fmtg c f) with
+    | PFok b => (b =? f) && forallb (fun x => negb (beqb x x0a)) (e_fmtg c f)
+    | _ => false
+    end.
+  Definition float_fits (f : N) : bool := if (1 <=? e_proto c)%Z then f <? 2 ^ 64 else fmtg_ok f.
+
   (* text written with a unicode opcode (binary forms; the protocol-0 V form is not covered) *)
   Definition uni_fits (s : bytes) : bool := (1 <=? e_proto c)%Z && len32 s.
   (* text written with a Python-2 str opcode: binary forms, or at protocol 0 S + pyquote *)
@@ -94,7 +102,7 @@ Section Norm.
     | RBool b => Some (TBool b)
     | RInt z => if in_int64 z then Some (TInt z) else None
     | RUint z => if (0 <=? z)%Z then Some (if (z <=? int64_max)%Z then TInt z else TBig z) else None
-    | RFloat f => if (1 <=? e_proto c)%Z && (f <? 2 ^ 64) then Some (TFloat f) else None
+    | RFloat f => if float_fits f then Some (TFloat f) else None
     | RStr SPlain s | RStr SNamed s => if str_fits s then Some (TStr s) else None
     | RStr SUnicode s => if uni_fits s then Some (TStr s) else None
     | RStr SByteString s => if bstr_fits s then Some (bstr_t s) else None
@@ -145,7 +153,7 @@ Fixpoint fits (c : econfig) (t : tval) : bool :=
   match t with
   | TNone | TBool _ | TBig _ => true
   | TInt z => in_int64 z
-  | TFloat f => (1 <=? e_proto c)%Z && (f <? 2 ^ 64)
+  | TFloat f => float_fits c f
   | TStr s => str_fits c s
   | TBStr s => bstr_fits c s && e_strict c
   | TBytes s => bytes_ok c s
@@ -162,7 +170,7 @@ Fixpoint fits (c : econfig) (t : tval) : bool :=
 Fixpoint fits_proto (c : econfig) (t : tval) : bool :=
   match t with
   | TNone | TBool _ | TBig _ | TInt _ => true
-  | TFloat f => (1 <=? e_proto c)%Z && (f <? 2 ^ 64)
+  | TFloat f => float_fits c f
   | TStr s => str_fits c s
   | TBStr s => bstr_fits c s
   | TBytes s => bytes_ok c s
